@@ -9,21 +9,23 @@ Import ListNotations.
 Fixpoint expr_rect' (P : expr -> Prop)
   (HP : forall p, P (XPlace p))
   (HC : forall fl args, Forall P args -> P (XCall fl args))
-  (HN : forall cs, Forall P cs -> P (XNode cs)) (e : expr) : P e :=
+  (HN : forall cs, Forall P cs -> P (XNode cs))
+  (HD : forall e ok, P e -> P (XDrop e ok)) (e : expr) : P e :=
   match e with
   | XPlace p => HP p
   | XCall fl args =>
       HC fl args ((fix go (l : list expr) : Forall P l :=
                      match l with
                      | [] => Forall_nil P
-                     | a :: r => Forall_cons a (expr_rect' P HP HC HN a) (go r)
+                     | a :: r => Forall_cons a (expr_rect' P HP HC HN HD a) (go r)
                      end) args)
   | XNode cs =>
       HN cs ((fix go (l : list expr) : Forall P l :=
                 match l with
                 | [] => Forall_nil P
-                | a :: r => Forall_cons a (expr_rect' P HP HC HN a) (go r)
+                | a :: r => Forall_cons a (expr_rect' P HP HC HN HD a) (go r)
                 end) cs)
+  | XDrop e0 ok => HD e0 ok (expr_rect' P HP HC HN HD e0)
   end.
 
 Fixpoint args_use (az : list expr) (fs : list (bool * bool)) : list event :=
@@ -71,6 +73,8 @@ Proof.
     destruct a; auto. intros ev H. destruct H as [H | []]. subst. exact I.
   - intros cs HF. rewrite ev_node. induction HF as [|a r Ha HF IH]; simpl; [intros ev []|].
     apply no_assign_app; auto.
+  - intros e ok He. simpl. apply no_assign_app; auto. destruct ok; intros ev H; [destruct H|].
+    destruct H as [H | []]. subst. exact I.
 Qed.
 
 Lemma shadow_wf_app : forall a b, no_assign a -> shadow_wf b -> shadow_wf (a ++ b).
@@ -150,12 +154,14 @@ Proof.
         - intros B'' Hi'. unfold arg_back. destruct (fst f) eqn:Ef; simpl; auto.
           destruct a; try (destruct (snd f); simpl; auto; fail).
           simpl. split; auto. intros l Hl. apply Hi', Hi. eapply Hids; eauto. }
-      destruct a as [p | fl az | cs].
+      destruct a as [p | fl az | cs | e0 ok0].
       * destruct (fst f) eqn:Ef.
         -- simpl. apply IH. intros B' Hi. apply (Hmid' (map l_id (leaves (p_tree p)) ++ B)); auto.
            ++ apply incl_appr, incl_refl.
            ++ intros l p0 E _ Hl. inversion E; subst p0. apply in_or_app. left. apply in_map. exact Hl.
         -- simpl. apply IH. intros B' Hi. apply (Hmid' B); auto. apply incl_refl. intros l p0 _ Hf. discriminate.
+      * apply reassign_wf_app; [apply Ha|]. intros B0 Hi0. apply IH. intros B' Hi.
+        apply (Hmid' B0); auto. intros l p0 E. discriminate.
       * apply reassign_wf_app; [apply Ha|]. intros B0 Hi0. apply IH. intros B' Hi.
         apply (Hmid' B0); auto. intros l p0 E. discriminate.
       * apply reassign_wf_app; [apply Ha|]. intros B0 Hi0. apply IH. intros B' Hi.
@@ -170,6 +176,7 @@ Proof.
     pose proof (call_wf args HF fl B [] (fun B' _ => I)) as H. simpl in H. exact H.
   - intros cs HF. rewrite ev_node. induction HF as [|a r Ha HF IH]; simpl; [intros B; exact I|].
     apply Q_app; auto.
+  - intros e ok He. simpl. apply Q_app; auto. destruct ok; intros B; simpl; auto.
 Qed.
 
 Lemma ev_stmt_Q : forall st, Q (ev_stmt st).
